@@ -1,4 +1,5 @@
 """C12 - session-pair lock-step check (see muxlib.py and coq/Model/Mux.v)."""
+import os
 import muxlib, vlib
 
 PROP_FILES = ['Properties/C12']
@@ -90,3 +91,57 @@ def replay(ctx, verdict):
 def search(ctx, verdict, problems):
     import winlib
     return winlib.search(ctx, verdict, problems)
+
+
+# ---- connections attached to a session that has already been torn down (harness/multiplex/c12_late_conn_test.go)
+def late_conn(ctx, verdict):
+    cases = []
+    k = 0
+    for teardown in ('close', 'eof', 'reset'):
+        for late_end in ('eof', 'reset'):
+            for nlate in (1, 3):
+                cases.append('lc%d LATE %s %s %d' % (k, teardown, late_end, nlate)); k += 1
+    inp, out = '%s/late.in' % ctx.work, '%s/late.out' % ctx.work
+    open(inp, 'w').write('\n'.join(cases) + '\n')
+    rc, log, dt = vlib.go_test(ctx, 'multiplex', 'TestVerifC12LateConn', files=['c12_late_conn_test.go'], env=dict(VERIF_IN=inp, VERIF_OUT=out), timeout=300)
+    got = vlib.read_lines_by_id(out)
+    broken = []
+    if rc != 0 or len(got) < len(cases):
+        broken.append(('Go driver TestVerifC12LateConn failed rc=%d' % rc, log[-3000:]))
+    bad = []
+    for c in cases:
+        g = got.get(c.split()[0])
+        if g is None:
+            continue
+        d = dict(x.split('=') for x in g.split())
+        a, b = d['closed'].split('/')
+        e0, e1 = d['early'].split('/')
+        if a != b or e0 != e1 or d['sessionclosed'] != 'true':
+            bad.append((c, g))
+    if bad:
+        c, g = bad[0]
+        f = c.split()
+        verdict.oracle_failure('late-connection-left-open', 'C12 oracle: after the session was torn down (%s) %s connection(s) were attached to it and then ended by the peer (%s): %s - every connection of a closed session must end up closed at this end' % (f[2], f[4], f[3], g),
+                               dict(kind='late-conn', case=c, observed=g, failing_cases=len(bad), how='go test -run TestVerifC12LateConn with harness/multiplex/c12_late_conn_test.go (VERIF_IN = the case line)'))
+    verdict.cov['late_connection_cases'] = dict(cases=len(cases), failures=len(bad))
+    return broken
+
+
+_corr_before_late = correspondence
+_replay_before_late = replay
+
+
+def correspondence(ctx, verdict, pr):
+    res = _corr_before_late(ctx, verdict, pr)
+    res['broken'] += late_conn(ctx, verdict)
+    return res
+
+
+def replay(ctx, verdict):
+    if ctx.replay.get('kind') == 'late-conn':
+        inp, out = '%s/late.in' % ctx.work, '%s/late.out' % ctx.work
+        open(inp, 'w').write(ctx.replay['case'] + '\n')
+        rc, log, dt = vlib.go_test(ctx, 'multiplex', 'TestVerifC12LateConn', files=['c12_late_conn_test.go'], env=dict(VERIF_IN=inp, VERIF_OUT=out), timeout=300)
+        print(open(out).read() if os.path.exists(out) else log[-1500:])
+        return 0
+    return _replay_before_late(ctx, verdict)
